@@ -20,6 +20,15 @@ CHECKS = {
     "C05": ("finite-partition abstract evaluation (36 scale pairs) + table agreement with an independent calendar oracle",
             "to_time_scale evaluated per ordered pair of the six uniform scales with symbolic elapsed time: result = self.duration + constant, constant equals the oracle offset; reference constants, prime/gregorian offsets and to_/from_ wrappers agree with the oracle.",
             "3.C05"),
+    "C12": ("decision analysis by abstract interpretation with an uninterpreted scale conversion; E5 scale-domain rule",
+            "Epoch eq/partial_cmp/cmp/min/max: both operands of the Duration comparison are in the same scale (one converted to the other's), and the result is exactly what the signed counts dictate, so ==, <, > are mutually exclusive; PartialOrd and Ord agree.",
+            "3.C12"),
+    "C15": ("write-set (frame) analysis + decision tables by abstract interpretation with exact Duration algebra",
+            "next() writes only cur; item = start + cur_before*step (product from the counter) in start's scale; cur += 1 on Some, unchanged on None; None iff cur*step >= span (exclusive) / > span (inclusive); constructors set duration = end - start, cur = 0, incl.",
+            "3.C15"),
+    "C14": ("abstract interpretation with linear forms and Euclid/truncating-remainder axioms; decision tables; E5 frame rule",
+            "floor: F <= x, x - F < |s|, F = x - (x mod s) with operands provably the exact counts; zero step => 0; ceil = floor + |s| (MAX on overflow); round picks floor iff strictly nearer (ties up); Epoch forms delegate in the epoch's own scale.",
+            "3.C14"),
 }
 
 NOT_YET = {}
